@@ -439,25 +439,32 @@ Inductive ares :=
 | ARnone
 | ARthread (th : Z).
 
-Definition unit_live (s : astate) (u : Z) : bool :=
-  existsb (fun e : Z * thr => t_unit (snd e) =? u) (a_thr s).
+(* documented requirement on u_create_from_thread / p_create_unit(pool, th):
+   the handle is NULL (failure) or a non-NULL pointer with bit 0 clear that is
+   not the handle of ANOTHER live work unit.  It may be the handle th itself
+   currently has: pools whose unit handle is the work-unit handle itself
+   ("unit = (ABT_unit)thread", test/basic/pool_user_def.c) or a field embedded
+   in per-thread data return the same value from every pool.  create_unit is
+   called while th holds a live user unit only in the "user-defined -> another
+   user-defined pool" branch of the two set_associated_pool functions, so this
+   is the one place where the new handle can equal a live one (a same-handle
+   move): the table then holds the key twice between map(new) and unmap(old). *)
+Definition unit_live_other (s : astate) (th u : Z) : bool :=
+  existsb (fun e : Z * thr => negb (fst e =? th) && (t_unit (snd e) =? u)) (a_thr s).
 
-(* documented requirement on u_create_from_thread / p_create_unit: the
-   handle is NULL (failure) or a non-NULL pointer with bit 0 clear that is
-   not the handle of another live unit *)
-Definition oracle_ok (s : astate) (o : Z * bool) : bool :=
+Definition oracle_ok (s : astate) (th : Z) (o : Z * bool) : bool :=
   let cu := fst o in
-  (cu =? UNIT_NULL) || (Z.even cu && negb (unit_live s cu)).
+  (cu =? UNIT_NULL) || (Z.even cu && negb (unit_live_other s th cu)).
 
 Definition thread_ptr_ok (th : Z) : bool := negb (th =? 0) && Z.even th.
 
 Definition apre (s : astate) (o : aop) : bool :=
   match o with
   | AInit th p o' =>
-      thread_ptr_ok th && oracle_ok s o' &&
+      thread_ptr_ok th && oracle_ok s th o' &&
       match zfind (a_thr s) th with None => true | Some _ => false end
   | ASet th p o' | AUSet th p o' =>
-      oracle_ok s o' && match zfind (a_thr s) th with Some _ => true | None => false end
+      oracle_ok s th o' && match zfind (a_thr s) th with Some _ => true | None => false end
   | AUnset th | AGet th =>
       match zfind (a_thr s) th with Some _ => true | None => false end
   end.
@@ -511,16 +518,25 @@ End Assoc.
 (* ------------------------------------------------------------------ *)
 (* replaying the call log                                               *)
 (* ------------------------------------------------------------------ *)
-(* [replay log] = the function  handle -> Some (pool, thread)  of the handles
-   that are live after the calls of [log] (newest first), or None when the log
-   is ill-formed:
-     - create_unit returns a handle that is still live (a non-NULL handle is
-       created at most once per life),
-     - free_unit / push / pop mention a handle that is not live, or is live
-       for another pool (so: freed at most once, never used after its free,
-       and freed by the pool that created it). *)
-Definition lmap := Z -> option (Z * Z).
-Definition lupd (f : lmap) (u : Z) (v : option (Z * Z)) : lmap :=
+(* [replay log] = the function  handle -> Some (pool, thread, second pool)  of
+   the handles that are live after the calls of [log] (newest first), or None
+   when the log is ill-formed.  A handle is normally live for one pool
+   (third component None).  Well-formed:
+     - create_unit returns NULL, a handle that is not live, or - the
+       same-handle move - the handle that is live for the SAME work unit in
+       ANOTHER pool and not in the middle of such a move already: it is then
+       live in two pools (old pool, thread, Some new pool) until one of the two
+       frees it;
+     - free_unit names a handle that is live for that very pool (so: freed at
+       most once per creation, never after its free, by the pool that created
+       it); of a handle live in two pools it ends the association with the
+       pool that frees (old pool: the move completes; new pool: the move is
+       abandoned, which is what a failed map does);
+     - push / pop mention a handle that is live for that pool and for no other
+       (never in the middle of a move). *)
+Definition lval := (Z * Z * option Z)%type.
+Definition lmap := Z -> option lval.
+Definition lupd (f : lmap) (u : Z) (v : option lval) : lmap :=
   fun u' => if u' =? u then v else f u'.
 
 Definition replay_call (f : lmap) (c : call) : option lmap :=
@@ -528,18 +544,25 @@ Definition replay_call (f : lmap) (c : call) : option lmap :=
   | CCreate p th u =>
       if u =? UNIT_NULL then Some f
       else match f u with
-           | Some _ => None
-           | None => Some (lupd f u (Some (p, th)))
+           | None => Some (lupd f u (Some (p, th, None)))
+           | Some (p0, th0, None) =>
+               if (th0 =? th) && negb (p0 =? p)
+               then Some (lupd f u (Some (p0, th0, Some p))) else None
+           | Some (_, _, Some _) => None
            end
   | CFree p u =>
       match f u with
-      | Some (p', _) => if p' =? p then Some (lupd f u None) else None
+      | Some (p0, th0, None) => if p0 =? p then Some (lupd f u None) else None
+      | Some (p0, th0, Some p1) =>
+          if p0 =? p then Some (lupd f u (Some (p1, th0, None)))
+          else if p1 =? p then Some (lupd f u (Some (p0, th0, None)))
+          else None
       | None => None
       end
   | CPush p u | CPop p u =>
       match f u with
-      | Some (p', _) => if p' =? p then Some f else None
-      | None => None
+      | Some (p0, _, None) => if p0 =? p then Some f else None
+      | _ => None
       end
   end.
 
@@ -554,8 +577,8 @@ Fixpoint replay (log : list call) : option lmap :=
   end.
 
 (* the live user-unit association of a state: handle -> (pool, thread) *)
-Definition user_assoc (l : list (Z * thr)) (u : Z) : option (Z * Z) :=
+Definition user_assoc (l : list (Z * thr)) (u : Z) : option lval :=
   match find (fun e : Z * thr => (t_unit (snd e) =? u) && negb (is_builtin_unit u)) l with
-  | Some (th, x) => Some (t_pool x, th)
+  | Some (th, x) => Some (t_pool x, th, None)
   | None => None
   end.
